@@ -8,6 +8,7 @@ import Driver.Migrate
 import Driver.Canon
 import Driver.DiffReport
 import Driver.Walk
+import Driver.ZipEquiv
 open Sfw
 
 /-- a suite is a state machine over protocol lines -/
@@ -29,6 +30,7 @@ def dispatch (suite : String) : Option Suite :=
   | "canon" => some { σ := Driver.CanonState, init := Driver.CanonState.init, step := Driver.canonStep }
   | "diffreport" => some (pureSuite Driver.diffReportStep)
   | "walk" => some (pureSuite Driver.walkStep)
+  | "zipequiv" => some (pureSuite Driver.zipEquivStep)
   | "store" => some { σ := Sfw.Store.KV, init := Sfw.Store.init, step := Driver.storeStep }
   | _ => none
 
